@@ -46,24 +46,30 @@ CHECK_DEADLOCK FALSE
 """
 
 
-def fname(i):
-    return f"Fr{i}"
+def fname(i, nm=None):
+    """the NAME of fragment i: its alphabetical rank is nm[i] (FragmentsPkg!nm); index order when nm is None"""
+    return f"Fr{nm[i - 1] if nm else i}"
 
 
-def render_case(defs, ops, perm=None, mixin_on=None):
+def findex(name, nm):
+    r = int(name[2:])
+    return nm.index(r) + 1 if nm else r
+
+
+def render_case(defs, ops, perm=None, mixin_on=None, nm=None):
     """defs: list of {on, inl, spreads}; ops: list of list of {T, fs}.  perm: order of the definitions in the file."""
     parts = {}
     for i, d in enumerate(defs, start=1):
-        body = [f"  k{i}: {OWN[d['on']]}"] + [f"  ...{fname(g)}" for g in d["spreads"]]
+        body = [f"  k{i}: {OWN[d['on']]}"] + [f"  ...{fname(g, nm)}" for g in d["spreads"]]
         if d["inl"]:
             body.append(f"  ... on A {{\n    z{i}: a1\n  }}")
         mix = ' @mixin(from: ".mixins_mod", import: "MixinF")' if mixin_on == ("frag", i) else ""
-        parts[("f", i)] = f"fragment {fname(i)} on {d['on']}{mix} {{\n" + "\n".join(body) + "\n}"
+        parts[("f", i)] = f"fragment {fname(i, nm)} on {d['on']}{mix} {{\n" + "\n".join(body) + "\n}"
     for k, op in enumerate(ops, start=1):
         flds = []
         for i, fld in enumerate(op, start=1):
             mix = ' @mixin(from: ".mixins_mod", import: "MixinO")' if mixin_on == ("field", k, i) else ""
-            flds.append(f"  x{i}: {ROOTF[fld['T']]}{mix} {{\n" + "\n".join(f"    ...{fname(f)}" for f in fld["fs"]) + "\n  }")
+            flds.append(f"  x{i}: {ROOTF[fld['T']]}{mix} {{\n" + "\n".join(f"    ...{fname(f, nm)}" for f in fld["fs"]) + "\n  }")
         parts[("o", k)] = f"query Op{k} {{\n" + "\n".join(flds) + "\n}"
     keys = list(parts)
     if perm is not None:
@@ -74,8 +80,8 @@ def render_case(defs, ops, perm=None, mixin_on=None):
 def cases_from(res):
     out = []
     for t in printed_tuples(res.out, "F"):
-        _, defs, ops, unpacked, mixins, order, opbases = t
-        out.append({"defs": defs, "ops": ops, "unpacked": unpacked, "mixins": mixins, "order": order, "opbases": opbases})
+        _, defs, ops, unpacked, mixins, order, nm, opbases = t
+        out.append({"defs": defs, "ops": ops, "unpacked": unpacked, "mixins": mixins, "order": order, "opbases": opbases, "nm": list(nm)})
     return out
 
 
@@ -108,7 +114,7 @@ def run(tier, work, replay=None):
     cases = cases_from(rr["mc"]) + cases_from(rr["mc3"])
     seen, uniq = set(), []
     for c in cases:
-        k = json.dumps([c["defs"], c["ops"]], sort_keys=True)
+        k = json.dumps([c["defs"], c["ops"], c["nm"]], sort_keys=True)
         if k not in seen:
             seen.add(k)
             uniq.append(c)
@@ -133,7 +139,7 @@ def run(tier, work, replay=None):
         ci, pi, perm, mix = w
         c = cases[ci]
         job = work.dir / f"job_{ci}_{pi}"
-        qtext = render_case(c["defs"], c["ops"], perm, mix)
+        qtext = render_case(c["defs"], c["ops"], perm, mix, c["nm"])
         files = {"mixins_mod.py": "class MixinF:\n    marker_f = 1\n\n\nclass MixinO:\n    marker_o = 2\n"}
         write_job(job, schema=gamma.SDL, queries=qtext, package="gclient",
                   options={"async_client": False, "files_to_include": ["mixins_mod.py"]}, files=files)
@@ -144,13 +150,13 @@ def run(tier, work, replay=None):
             for op in c["ops"]:
                 flds = []
                 for fld in op:
-                    flds.append({"T": fld["T"], "direct_exact": [fname(f) for f in fld["fs"]
+                    flds.append({"T": fld["T"], "direct_exact": [fname(f, c["nm"]) for f in fld["fs"]
                                                                   if not c["defs"][f - 1]["inl"] and c["defs"][f - 1]["on"] == fld["T"]]})
                 ops_payload.append(flds)
-            obs = run_in_pkg(job, "harness.pkg.c08", {"package": "gclient", "frag_names": [fname(i + 1) for i in range(len(c["defs"]))] ,
+            obs = run_in_pkg(job, "harness.pkg.c08", {"package": "gclient", "frag_names": [fname(i + 1, c["nm"]) for i in range(len(c["defs"]))],
                                                       "ops": ops_payload})
             if mix:
-                obs["mixin"] = check_mixin(job, mix)
+                obs["mixin"] = check_mixin(job, mix, c["nm"])
         import shutil
         shutil.rmtree(job, ignore_errors=True)
         return w, r, obs, qtext
@@ -172,7 +178,7 @@ def run(tier, work, replay=None):
         for k, op in enumerate(c["ops"]):
             for i, fld in enumerate(op):
                 fo = obs["ops"][k][i]
-                exact = [fname(f) for f in fld["fs"] if not c["defs"][f - 1]["inl"] and c["defs"][f - 1]["on"] == fld["T"]]
+                exact = [fname(f, c["nm"]) for f in fld["fs"] if not c["defs"][f - 1]["inl"] and c["defs"][f - 1]["on"] == fld["T"]]
                 for inst in fo["instances"]:
                     if "error" in inst:
                         v.violation(feats, "call_failed", {"queries": qtext, "error": inst["error"]})
@@ -186,7 +192,8 @@ def run(tier, work, replay=None):
                         elif inst["validates"].get(fn) is not True:
                             v.violation(feats, "fragment_does_not_validate_payload", {"queries": qtext, "fragment": fn, "outcome": inst["validates"].get(fn)})
         # trace for TLC
-        tr = [{"e": "case", "defs": c["defs"], "ops": c["ops"]}]
+        tr = [{"e": "case", "defs": c["defs"], "ops": c["ops"], "nm": c["nm"]}]
+        ix = lambda name: findex(name, c["nm"])   # noqa
         adds = [e for e in r["events"] if isinstance(e, dict) and e.get("e") == "add_operation"]
         by_name = {e.get("op"): e for e in adds}
         for k in range(1, len(c["ops"]) + 1):
@@ -196,11 +203,11 @@ def run(tier, work, replay=None):
             tr.append({"e": "add", "op": k})
         # accumulators are order-dependent only through union: compare after the last add
         last = adds[-1]
-        tr.append({"e": "accumulators", "unpacked": sorted(int(x[2:]) for x in last["unpacked"]),
-                   "mixins": sorted(int(x[2:]) for x in last["mixins"])})
-        tr.append({"e": "generated", "order": [int(n[2:]) for n in obs["order"]],
-                   "frag_bases": [[int(n[2:]), sorted(int(b[2:]) for b in bs)] for n, bs in sorted(obs["frag_bases"].items())],
-                   "op_bases": [[[[cl[0], sorted(int(b[2:]) for b in cl[1])] for cl in fo["classes"]] for fo in opo] for opo in obs["ops"]]})
+        tr.append({"e": "accumulators", "unpacked": sorted(ix(x) for x in last["unpacked"]),
+                   "mixins": sorted(ix(x) for x in last["mixins"])})
+        tr.append({"e": "generated", "order": [ix(n) for n in obs["order"]],
+                   "frag_bases": sorted([ix(n), sorted(ix(b) for b in bs)] for n, bs in obs["frag_bases"].items()),
+                   "op_bases": [[[[cl[0], sorted(ix(b) for b in cl[1])] for cl in fo["classes"]] for fo in opo] for opo in obs["ops"]]})
         traces.append(tr)
         owners.append((feats, qtext))
     v.cov["evaluations"] = len(outs)
@@ -234,7 +241,7 @@ def run(tier, work, replay=None):
     return v.finish()
 
 
-def check_mixin(job, mix):
+def check_mixin(job, mix, nm=None):
     """The class named by @mixin is imported and is an additional base of exactly the class of that field / fragment."""
     import subprocess
     from ..common import run_py
@@ -262,10 +269,10 @@ print(json.dumps(hits))
     except Exception:  # noqa
         return "probe_failed:" + p.stderr[-200:]
     if mix[0] == "frag":
-        want = [[f"Fr{mix[1]}", "MixinF", "gclient.mixins_mod"]]
+        want = [[fname(mix[1], nm), "MixinF", "gclient.mixins_mod"]]
         # a fragment that is unpacked everywhere has no class: then nothing can carry the mixin
         if not hits:
-            return True if not (job / "gclient" / "fragments.py").exists() or f"class Fr{mix[1]}(" not in (job / "gclient" / "fragments.py").read_text() else hits
+            return True if not (job / "gclient" / "fragments.py").exists() or f"class {fname(mix[1], nm)}(" not in (job / "gclient" / "fragments.py").read_text() else hits
     else:
         want = None
         names = {h[0] for h in hits}
